@@ -87,7 +87,9 @@ func (s *Scheduler) Step(id int, settle time.Duration) (string, bool) {
 		if len(mine) > 0 && s.active == 0 {
 			// Let a parallel batch assemble fully before choosing: wait a
 			// moment for stragglers only if the instance is not finished.
-			sort.Slice(mine, func(i, j int) bool { return opKey(mine[i].c)+mine[i].c.Kind.String() < opKey(mine[j].c)+mine[j].c.Kind.String() })
+			sort.Slice(mine, func(i, j int) bool {
+				return opKey(mine[i].c)+mine[i].c.Kind.String() < opKey(mine[j].c)+mine[j].c.Kind.String()
+			})
 			g := mine[0]
 			for i, x := range s.waiting {
 				if x == g {
